@@ -245,6 +245,10 @@ pub enum Content {
     Opaque,
     /// random colour, opaque except for a handful of translucent pixels
     SparseAlpha,
+    /// min / max blocks whose size (encoded in the content seed: low 16 bits = width, next
+    /// 16 bits = height) is the footprint of one destination pixel: the sign-adversarial
+    /// content for kernels with negative lobes (largest accumulator excursions)
+    Blocks,
 }
 
 #[derive(Clone, Debug, PartialEq, Serialize, Deserialize)]
